@@ -84,15 +84,7 @@ def build_cli(repo, spec_dir, chunk=1, canary=False):
     rng, _, _ = X.stmt_range(hi, 'let mut builder = RegExpBuilder::from(&test_cases);', 'let regexp = builder.build();')
     # split the statement range into top-level statements
     from vx import rustlex as L
-    stmts, i = [], 0
-    while i < len(rng):
-        while i < len(rng) and rng[i] in ' \t\n': i += 1
-        if i >= len(rng): break
-        if rng.startswith('if ', i):
-            bo = L.body_open(rng, i); e = L.match_close(rng, bo) + 1
-        else:
-            e = L.stmt_end(rng, i) + 1
-        stmts.append(rng[i:e]); i = e
+    stmts = [rng[x:y] for (x, y) in L.split_stmts(rng)]
     first, rest = stmts[0], stmts[1:]
     # intermediate state after a prefix of the statements: the contract expression with not-yet-handled cli flags at their neutral value
     def flags_in(st): return set(re.findall(r'cli\.([a-z_]+)', st))
